@@ -53,6 +53,7 @@ theorem exec_mono (env : Env) : ∀ (f : Nat) (s : Stmt) (L : Locals) (st : St) 
             | ret v => simpa using h
     | loadObj i k a => simpa [exec] using h
     | storeObj a k i => simpa [exec] using h
+    | storeVal a k e => simpa [exec] using h
     | copy d s n => simpa [exec] using h
     | fill d v n => simpa [exec] using h
     | call dst fn args =>
